@@ -206,7 +206,8 @@ def run_property(pid, jobs, tier, seed, level='other', technique='', assumptions
     Returns the process exit code."""
     t0 = time.time()
     known = load_known()
-    os.makedirs(os.path.join(VERIF, 'evidence'), exist_ok=True)
+    evdir = os.environ.get('VERIF_EVIDENCE_DIR') or os.path.join(VERIF, 'evidence')
+    os.makedirs(evdir, exist_ok=True)
     os.makedirs(os.path.join(VERIF, 'replays'), exist_ok=True)
     per_job = []
     violations, known_hits, inconclusive = [], [], []
@@ -337,7 +338,7 @@ def run_property(pid, jobs, tier, seed, level='other', technique='', assumptions
     ev = dict(property_id=pid, tier=tier, seed=seed, level=level, coverage=cov,
               assumptions=list(assumptions), wall_s=wall,
               violations=len(violations))
-    with open(os.path.join(VERIF, 'evidence', '%s.json' % pid), 'w') as f:
+    with open(os.path.join(evdir, '%s.json' % pid), 'w') as f:
         json.dump(jsonable(ev), f, indent=1)
     print('%s tier=%s jobs=%d paths=%d solver_queries=%d solver_s=%.1f obligations=%d wall=%.1fs -> %s'
           % (pid, tier, len(jobs), agg['paths'], agg['solver_calls'], agg['solver_s'], total_ob,
